@@ -364,4 +364,37 @@ theorem countAvx2_eq (data : List Byte) : countAvx2 data = (data.takeWhile isSpa
     · rfl
 
 
+/-! ### mask bits, `|` of masks, `(mask >> i) & 1` -/
+
+theorem testBit_movemask (lanes : List Byte) : ∀ i, (movemask lanes).testBit i =
+    (match lanes[i]? with | some l => l.msb | none => false) := by
+  induction lanes with
+  | nil => intro i; simp [movemask_nil]
+  | cons l ls ih =>
+    intro i
+    rw [movemask_cons]
+    cases i with
+    | zero =>
+      rw [Nat.testBit_zero]
+      cases h : l.msb <;> simp <;> omega
+    | succ i =>
+      rw [Nat.testBit_succ]
+      have : ((if l.msb = true then 1 else 0) + 2 * movemask ls) / 2 = movemask ls := by
+        split <;> omega
+      rw [this, ih i]; simp
+
+theorem movemask_or (l1 l2 : Byte → Byte) (chunk : List Byte) :
+    movemask (chunk.map l1) ||| movemask (chunk.map l2) =
+      movemask (chunk.map fun x => por (l1 x) (l2 x)) := by
+  apply Nat.eq_of_testBit_eq
+  intro i
+  rw [Nat.testBit_or, testBit_movemask, testBit_movemask, testBit_movemask]
+  simp only [List.getElem?_map]
+  cases chunk[i]? <;> simp [por, BitVec.msb_or]
+
+theorem shr_and_one (m i : Nat) : ((m >>> i) &&& 1 ≠ 0) ↔ m.testBit i = true := by
+  unfold Nat.testBit
+  rw [Nat.and_comm]; simp
+
+
 end SV.Yaml
